@@ -27,6 +27,14 @@ pub uninterp spec fn lookup_dependency(n: &Node, name: Seq<char>) -> Option<Iden
 #[verifier::external_body] pub fn get_dependency_ident_from_name(n: &Node, name: &VStr) -> (r: Option<Ident>) ensures r == lookup_dependency(n, str_view(name)) { unimplemented!() }
 // Parser::ident: a fresh, untyped, non-const ident with the node's text
 #[verifier::external_body] pub fn parse_ident(n: Node) -> (r: Result<Ident, VErr>) ensures r is Ok ==> str_view(&r->Ok_0.name) == node_text(&n) && r->Ok_0.ty is None && !r->Ok_0.read_only { unimplemented!() }
+#[verifier::external_body] pub fn is_directly_callback(t: &TypeLayout) -> (r: bool) ensures r == is_callback_ty(*t) { unimplemented!() }
+// Assignment::modify_target (obligation C07.modify.target-is-captured): the variable `modify NAME` names, which must be a captured one
+pub uninterp spec fn lookup_is_captured(n: &Node, name: Seq<char>) -> bool;             // get_dependency_flags_from_name(..).1: a function boundary lies in between
+pub open spec fn registered_as_captured(i: Ident) -> bool { i.ty is Some && is_callback_ty(i.ty->Some_0) }
+#[verifier::external_body] pub fn modify_target(n: &Node, name: &VStr) -> (r: Result<Option<Ident>, VErr>)
+    ensures lookup_dependency(n, str_view(name)) is None ==> r == Ok::<Option<Ident>, VErr>(None),
+        lookup_dependency(n, str_view(name)) is Some ==> (r is Ok <==> (lookup_is_captured(n, str_view(name)) || registered_as_captured(lookup_dependency(n, str_view(name))->Some_0))),
+        r is Ok ==> r->Ok_0 == lookup_dependency(n, str_view(name)) { unimplemented!() }
 #[verifier::external_body] pub fn get_type_recursively(t: &TypeLayout) -> (r: &TypeLayout) { unimplemented!() }
 #[verifier::external_body] pub struct Assignment { x: usize }
 pub uninterp spec fn assignment_ident(a: &Assignment) -> Ident;
@@ -50,7 +58,7 @@ IDENT_FNS = {
     "mark_const": ("pub fn mark_const(&mut self)", "ensures final(self).read_only, final(self).name == old(self).name, final(self).ty == old(self).ty"),
     "is_const": ("pub fn is_const(&self) -> (r: bool)", "ensures r == self.read_only"),
     "wrap_in_callback": ("pub fn wrap_in_callback(self) -> (r: Result<Ident, VErr>)",
-                         "ensures r is Ok <==> self.ty is Some, r is Ok ==> r->Ok_0.name == self.name && r->Ok_0.read_only == self.read_only && r->Ok_0.ty == Some(callback_of(self.ty->Some_0))"),
+                         "ensures r is Ok <==> self.ty is Some, r is Ok ==> r->Ok_0.name == self.name && r->Ok_0.read_only == self.read_only && r->Ok_0.ty == Some(if is_callback_ty(self.ty->Some_0) { self.ty->Some_0 } else { callback_of(self.ty->Some_0) })"),
     "clone_with_type": ("pub fn clone_with_type(&self, ty: TypeLayout) -> (r: Ident)", "ensures r.name == self.name, r.read_only == self.read_only, r.ty == Some(ty)"),
 }
 IDENT_RULES = [
@@ -58,6 +66,7 @@ IDENT_RULES = [
     Rule("R1", "Cow :: Owned ( $$e )", "$$e", why="Cow::Owned -> value"),
     Rule("R1", "TypeLayout :: CallbackVariable ( ty . into_owned ( ) . into ( ) , )", "mk_callback ( ty )", why="TypeLayout::CallbackVariable(Box::new(ty)) as abstract constructor"),
     Rule("R1", "TypeLayout :: CallbackVariable ( ty . into_owned ( ) . into ( ) )", "mk_callback ( ty )", why="TypeLayout::CallbackVariable(Box::new(ty)) as abstract constructor"),
+    Rule("R6", "ty . is_directly_callback_variable ( )", "is_directly_callback ( & ty )", why="TypeLayout::is_directly_callback_variable: the type IS the captured-variable wrapper (unit c02_type_predicates)"),
     Rule("R1", "self . name . clone ( )", "clone_str ( & self . name )", why="String clone"),
 ]
 
@@ -88,6 +97,7 @@ def assign_rules(typed):
         Rule("R6", "input . user_data ( ) . has_name_been_mapped_in_function ( $i . name ( ) )", "has_name_been_mapped_in_function ( & input , & $i . name )", why="scope lookup abstract"),
         Rule("R6", "input . user_data ( ) . get_ident_from_name_local ( $i . name ( ) )", "get_ident_from_name_local ( & input , & $i . name )", why="scope lookup abstract (innermost scope only)"),
         Rule("R6", "input . user_data ( ) . get_dependency_flags_from_name ( ident . name ( ) ) . map ( | x | x . 0 . to_owned ( ) )", "get_dependency_ident_from_name ( & input , & ident . name )", why="scope lookup abstract (the ident of the pair)"),
+        Rule("R6", "map_err ( Assignment :: modify_target ( input . user_data ( ) , ident . name ( ) ) , $$rest ) . to_err_vec ( ) ?", "modify_target ( & input , & ident . name ) ?", why="abstract callee (obligation C07.modify.target-is-captured); diagnostic dropped"),
         Rule("R1", ". map ( | x | x . to_owned ( ) )", "", why="Option<&Ident> -> Option<Ident>: the abstract lookup already returns an owned ident"),
         Rule("R1", ". map ( | $p | Ident :: clone ( & $p ) )", "", why="Option<Ref<Ident>> -> Option<Ident>: the abstract lookup already returns an owned ident"),
         Rule("R1", ". map ( | $p | $p . clone ( ) )", "", why="Option<Ref<Ident>> -> Option<Ident>: the abstract lookup already returns an owned ident"),
@@ -127,6 +137,10 @@ def build(repo):
         // the previous declaration the const / type checks of Parser::assignment are run against
         (r is Ok && !is_modify) ==> r->Ok_0.1 == lookup_in_function(&input, node_text(&node_children(&input)[0])),
         (r is Ok && is_modify) ==> r->Ok_0.1 == lookup_dependency(&input, node_text(&node_children(&input)[0])),
+        // C07: what `modify` names -- innermost scope first, before this statement registers anything -- is a CAPTURED variable: a parameter or a variable
+        // of this function is refused (D120)
+        (r is Ok && is_modify && lookup_dependency(&input, node_text(&node_children(&input)[0])) is Some) ==>
+            lookup_is_captured(&input, node_text(&node_children(&input)[0])) || registered_as_captured(lookup_dependency(&input, node_text(&node_children(&input)[0]))->Some_0),
         // the declared ident: named after the first child; `const` makes it read-only; `modify` marks it as a captured variable
         r is Ok ==> str_view(&assignment_ident(&r->Ok_0.0).name) == node_text(&node_children(&input)[0]),
         (r is Ok && is_const) ==> assignment_ident(&r->Ok_0.0).read_only,
